@@ -103,7 +103,7 @@ def canonical_store(ctx, report, m, f):
                     v = strip(s.a[1][0])
                     if sliced_by_header(v, hdr):
                         forms.add("string")
-                elif s.k == "call" and s.a[0].name == "new" and "Vec" in s.a[0].fn:
+                elif s.k == "call" and s.a[0].name in ("new", "with_capacity") and "Vec" in s.a[0].fn:
                     # buffer filled by Header::encode(h) then extend_from_slice(payload[..len])
                     import shapes
                     from rules.typestate import trace_local
@@ -147,6 +147,13 @@ def canonical_store(ctx, report, m, f):
 def sliced_by_header(v, hdr):
     """v = payload[..h.payload_length] for the header h decoded by `hdr`"""
     v = strip(v)
+    # payload.split_at(h.payload_length).0
+    if v.k == "field" and v.a[1] == "0" and strip(v.a[0]).k == "call" and strip(v.a[0]).a[0].name == "split_at" and len(strip(v.a[0]).a[1]) == 2:
+        e = strip(strip(v.a[0]).a[1][1])
+        if e.k == "field" and e.a[1] == "payload_length":
+            p = ok_payload(strip(e.a[0]))
+            return p is not None and same_value(p, hdr)
+        return False
     if v.k == "call" and v.a[0].name == "index" and len(v.a[1]) == 2:
         r = strip(v.a[1][1])
         if r.k == "agg" and r.a[0].endswith("RangeTo") and "end" in r.a[1]:
